@@ -239,3 +239,19 @@ def run_case(case):
         r.labels = sorted(labels)
         return r
     return Outcome(True, labels=sorted(labels), nontrivial=nontrivial)
+
+
+# --------------------------------------------------------------------------
+# exhaustive array layer (vlib/arraylayer.py)
+# --------------------------------------------------------------------------
+from vlib import arraylayer  # noqa: E402
+
+EXHAUSTIVE_SCOPE = arraylayer.SCOPE
+
+
+def exhaustive_jobs(tier):
+    return arraylayer.jobs(tier)
+
+
+def run_exhaustive_job(job):
+    return arraylayer.run_job(run_case, job, extra=None)
